@@ -318,6 +318,10 @@ def runOp (op : String) (dbg : Bool) (a : List String) : Option (Out × Out) := 
       | 'X' => BV.numeral 16 true v.abs.val
       | _ => BV.numeral 10 false v.abs.val
     pure (.ok [.chars (digits v k)], .ok [.chars sp])
+  | "fmtL", [v, k] =>   -- long vectors: the implementation against the L0 numeral only (the L1 decimal loop is cubic)
+    let v ← parseVec v
+    let sp : List Char := specNumeral k.front v.abs.val
+    pure (.ok [.chars sp], .ok [.chars sp])
   | "fmtspec", [v, k, sp] =>   -- whole formatted string under a format spec; second output: agreement with `format!(spec, value as u128)`
     let v ← parseVec v; let sp ← parseSpec sp
     let k := k.front
